@@ -33,6 +33,9 @@ def generate(rng, tier):
                     out.append([s_, t_, l_])
             lab = rng.choice([None, None, [], rng.sample(labels + ["zz"], rng.randrange(1, len(labels) + 1))])
             cases.append({"k": "ann", "regime": regime, "recs": out, "labels": lab})
+    for regime in ("K0", "K4"):
+        for nbig in ([300, 640, 1100] if tier == "thorough" else [270 + 50 * len(regime)]):
+            cases.append({"regime": regime, "segs": gen.big_timeline(rng, regime, nbig)})
     cases += gen.far_copies(rng, cases, ['segs', 'recs'], (400 if tier == "thorough" else 60))
     return {"cases": cases, "meta": {"exhaustive": True, "small_scope_max_segments": k,
                                      "sizes": gen.stats(cases, {"n_segments": lambda c: len(c.get("segs", c.get("recs", [])))})}}
